@@ -754,6 +754,12 @@ class VM:
             ):
                 raise JSTypeError("Right-hand side of instanceof is not callable")
 
+            # x instanceof boundFunction asks about the bound function's target
+            while isinstance(constructor, JSFunction) and hasattr(
+                constructor, "_original_func"
+            ):
+                constructor = constructor._original_func
+
             # Check prototype chain
             if not isinstance(obj, JSObject):
                 self.stack.append(False)
